@@ -1,0 +1,58 @@
+//go:build verif
+
+package aries
+
+import (
+	"sort"
+)
+
+// This file is only built with the "verif" tag. It exposes the unexported
+// compressed trie of the Mux to an external verification harness (read-only
+// dump, and direct add/find entry points); it adds no behaviour to the
+// package.
+
+// VerifTrieNode is a snapshot of one trieNode. Children are sorted by key.
+type VerifTrieNode struct {
+	Key    int              `json:"k"`
+	Branch string           `json:"b"`
+	Prefix string           `json:"p"`
+	Hit    bool             `json:"h"`
+	Child  []*VerifTrieNode `json:"c"`
+}
+
+func verifDump(key int, t *trieNode) *VerifTrieNode {
+	ret := &VerifTrieNode{
+		Key:    key,
+		Branch: t.branch,
+		Prefix: t.prefix,
+		Hit:    t.hit,
+		Child:  []*VerifTrieNode{},
+	}
+	var keys []int
+	for k := range t.child {
+		keys = append(keys, int(k))
+	}
+	sort.Ints(keys)
+	for _, k := range keys {
+		ret.Child = append(ret.Child, verifDump(k, t.child[byte(k)]))
+	}
+	return ret
+}
+
+// VerifMuxTrie returns a snapshot of the prefix trie inside m.
+func VerifMuxTrie(m *Mux) *VerifTrieNode { return verifDump(-1, m.t) }
+
+// VerifTrie gives direct access to a compressed trie.
+type VerifTrie struct{ root *trieNode }
+
+// VerifNewTrie makes a new trie root.
+func VerifNewTrie() *VerifTrie { return &VerifTrie{root: newTrieRoot()} }
+
+// Add is trieNode.add on the root.
+func (t *VerifTrie) Add(s string) bool { return t.root.add(s) }
+
+// Find is trieFind on the root.
+func (t *VerifTrie) Find(s string) (string, bool) { return trieFind(t.root, s) }
+
+// Dump returns a snapshot of the trie.
+func (t *VerifTrie) Dump() *VerifTrieNode { return verifDump(-1, t.root) }
